@@ -389,6 +389,8 @@ def run(check, an: Analysis):
     # the kernel rules every suspending operation rests on (shared; see _scope)
     from . import _scope as _kernel
     _kernel.check_kernel_core(check, an)
+    from . import _scope as _sc
+    _sc.check_until_core(check, an)
     check.stats.update(an.stats())
 
 
